@@ -442,15 +442,15 @@ func (msti *MeasurementInfo) clone() *MeasurementInfo {
 	other.MarkDeleted = msti.MarkDeleted
 	other.EngineType = msti.EngineType
 	other.tagKeysTotal = msti.tagKeysTotal
+	other.ID = msti.ID
 
 	other.Schema = msti.CloneSchema()
 	other.ShardIdexes = msti.CloneShardIdexes()
-	if msti.ShardKeys == nil {
-		return other
-	}
-	other.ShardKeys = make([]ShardKeyInfo, len(msti.ShardKeys))
-	for i := range msti.ShardKeys {
-		other.ShardKeys[i] = msti.ShardKeys[i].clone()
+	if msti.ShardKeys != nil {
+		other.ShardKeys = make([]ShardKeyInfo, len(msti.ShardKeys))
+		for i := range msti.ShardKeys {
+			other.ShardKeys[i] = msti.ShardKeys[i].clone()
+		}
 	}
 	if msti.ColStoreInfo != nil {
 		colStoreInfo := *msti.ColStoreInfo
